@@ -1143,10 +1143,13 @@ namespace mc
                         if (n <= 5)
                             g_viols.push_back({c.name, sig, cs, kind, clean(std::string(sl.desc) + " :: died: " + firsterr)});
                     }
-                    if (r.crashes > 200000)
+                    // a crash storm: the same fatal signature over and over. The verdict is settled by the
+                    // first few; going on would only burn the budget (each death costs ~10 ms of sanitizer
+                    // report). Stop this sub-check and say so.
+                    if (r.crashes > 400 && !S->stop.load())
                     {
                         S->stop.store(1);
-                        r.caps.push_back("crash-limit");
+                        r.caps.push_back("crash-storm: more than 400 fatal cases, sub-check stopped");
                     }
                     if (now() > g_deadline && !S->stop.load())
                     { // the deadline is normally noticed by workers between cases; a crashing
